@@ -11,7 +11,7 @@
 EXTENDS Naturals, Sequences, FiniteSets, TLC, SequencesExt
 
 \* ---- tokens ----------------------------------------------------------------------------
-GroupToks == {"ANY", "LOW", "AS", "ASP", "NS", "OPT", "CLS", "CLB", "NEST", "ELW"}
+GroupToks == {"ANY", "LOW", "AS", "ASP", "NS", "OPT", "CLS", "CLB", "NEST", "ELW", "BIGW"}
 IsGroup(t) == t \in GroupToks
 
 Conc(t) ==
@@ -30,6 +30,7 @@ Conc(t) ==
     [] t = "E("   -> <<"\\", "(">>                                  \* regex::escape("(")
     [] t = "~e~"  -> <<"~e~">>     \* a non-ASCII literal (the harness substitutes a 2-byte character): ONE character, two bytes
     [] t = "ELW"  -> <<"(", "?", ":", "~e~", "[", "a", "-", "b", "]", "+", ")">>   \* non-ASCII text inside a marker group
+    [] t = "BIGW" -> <<"(", "?", ":", "\\", "w", "{", "1", ",", "5", "0", "}", ")">>  \* a Unicode class with a counted repetition: a program of several MiB
 
 RECURSIVE ConcSeq(_)
 ConcSeq(p) == IF p = <<>> THEN <<>> ELSE Conc(Head(p)) \o ConcSeq(Tail(p))
@@ -49,6 +50,7 @@ InLang(ic, g, s) ==
     [] g = "CLS"  -> Len(s) >= 1
     [] g = "CLB"  -> Len(s) >= 1 /\ \A i \in 1..Len(s) : InSet(ic, s[i], {"a"})
     [] g = "OPT"  -> s = <<>> \/ (Len(s) = 1 /\ InSet(ic, s[1], {"a"}))
+    [] g = "BIGW" -> Len(s) >= 1 /\ Len(s) <= 50 /\ \A i \in 1..Len(s) : s[i] \in {"a", "b", "A", "B", "e", "~e~"}
     [] g = "ELW"  -> Len(s) >= 2 /\ s[1] = "~e~" /\ \A i \in 2..Len(s) : InSet(ic, s[i], {"a", "b"})
 
 TokMatch(ic, t, seg) == IF IsGroup(t) THEN InLang(ic, t, seg) ELSE Len(seg) = 1 /\ Eq(ic, seg[1], t)
